@@ -1,5 +1,6 @@
 import ExoVerif.Driver.Common
 import ExoVerif.Model.Auth
+import ExoVerif.Model.AuthMsgs
 /- driver for the C10 correspondence. The harness abstracts every real request into the facts the
    decision functions read (computed from the real state and the real transaction):
    `auth <entry> g a o p v <sig> eq m au x`
@@ -94,6 +95,34 @@ def opMsgDecide (kind sig : String) (eq pe pa ok : Bool) : String :=
     else "reject"
   | _, _ => "bad-op"
 
+/-- every registered sdk.Msg type as an outsider's signed tx (harness/dom_auth_allmsgs.go):
+    `auth.msg <url> <routed> <sig> <eq> <m> <au> <v> <same> <isOp> <h>` — routed = the MsgServiceRouter has a handler;
+    eq = sender field = the account whose key signed; au = sender field = keeper authority; v = the signing key has a
+    validator entry in x/oracle; same / isOp = the payload's operator_address field equals the sender field / is a
+    registered operator; h = the handler's own conditions on the payload held (taken from the real outcome: the model
+    decides the identity part). The class comes from the model's own table: an unknown url or a different routed flag
+    is a difference. Answer: `reject` | `accept:<owners of the records written>` -/
+def msgDecide (url : String) (routed : Bool) (sig : String) (eq m au v same isOp h : Bool) : String :=
+  match classOf url with
+  | none => "unknown-msg-type"
+  | some cls =>
+    if cls.routed != routed then "route-mismatch" else
+    let sg : Option SigStatus := match sig with
+      | "valid" => some .valid | "forged" => some .forged | "nopub" => some .noPubKey | _ => none
+    match sg with
+    | none => "bad-op"
+    | some sg =>
+      let subject : Addr := if same then 10 else 20
+      let st : AuthState :=
+        { gateway := 1, avsOwners := fun _ => [], isAVS := fun _ => false,
+          isOperator := fun c => c == subject && isOp, isValidator := fun c => c == 10 && v,
+          authority := if au then 10 else 99, mainnet := m }
+      let r : Request :=
+        { callerAddress := 0, origin := if eq then 10 else 11, arg0 := 10, sig := sg, subject := subject, phase := .one }
+      if admitMsg cls st r h then
+        "accept:" ++ joinWith "," ((msgRecordOwners cls r).map (fun a => if a == r.origin then "signer" else "other"))
+      else "reject"
+
 def step (u : Unit) (w : List String) : Unit × String :=
   match w with
   | ["auth.reset"] => (u, "ok")
@@ -102,6 +131,13 @@ def step (u : Unit) (w : List String) : Unit × String :=
     | some ps => (u, oracleTxDecide ps)
     | none => (u, "bad-op")
 
+  | ["auth.msg", url, routed, sig, eq, m, au, v, same, isOp, h] =>
+    (u, msgDecide url (b routed) sig (b eq) (b m) (b au) (b v) (b same) (b isOp) (b h))
+  | ["auth.msg.foreign", url, _] =>
+    -- a message of a module that holds no store key of an exocore module: it cannot write there
+    (u, if url.startsWith "/exocore." then "exocore-type-classified-foreign" else "untouched")
+  | ["auth.msg.exempt", url, _] => (u, if url.startsWith "/exocore." then "exocore-type-without-sender-field" else "ok")
+  | ["auth.msg.count"] => (u, toString msgTable.length)
   | ["auth.opmsg", kind, sig, eq, pe, pa, ok] => (u, opMsgDecide kind sig (b eq) (b pe) (b pa) (b ok))
   | "auth.note" :: _ => (u, "ok")
   | ["auth.task", ph, sig, eq, same, isOp, ok] => (u, taskDecide ph sig (b eq) (b same) (b isOp) (b ok))
